@@ -5,6 +5,7 @@ import (
 	"errors"
 	"fmt"
 	"io"
+	"math"
 	"net"
 	"os"
 	"strings"
@@ -137,6 +138,7 @@ func c18Gen(tier string, seed int64) []fw.Case {
 				"read-idle-expiry-with-partial-message", "write-idle-expiry-empty-write",
 				"read-active-past-deadline", "write-active-past-deadline",
 				"read-future-deadline-removed-idle", "write-future-deadline-removed-idle", "both-future-deadline-removed-idle", "read-future-deadline-removed-active",
+				"far-future-deadlines",
 			} {
 				add(c18Desc{Kind: "deadline", Role: role, DL: sc}, fmt.Sprintf("deadline/%s/%s", role, sc))
 			}
@@ -803,6 +805,38 @@ func c18Deadline(r *fw.R, d c18Desc) {
 		if !roundTrip("setdeadline-reset") {
 			return
 		}
+	case "far-future-deadlines":
+		// "never" sentinels: centuries ahead, beyond what a time.Duration can hold
+		for _, dl := range []time.Time{time.Date(9999, 12, 31, 23, 59, 59, 0, time.UTC), time.Unix(1<<40, 0), time.Now().Add(time.Duration(math.MaxInt64)), time.Now().Add(200 * 365 * 24 * time.Hour)} {
+			for _, which := range []string{"read", "write", "both"} {
+				switch which {
+				case "read":
+					nc.SetReadDeadline(dl)
+				case "write":
+					nc.SetWriteDeadline(dl)
+				default:
+					nc.SetDeadline(dl)
+				}
+				time.Sleep(5 * time.Millisecond)
+				if fired := obs.readIdle.Load() + obs.readActive.Load() + obs.writeIdle.Load() + obs.writeActive.Load(); fired != 0 {
+					r.Violate("C18/far-future-deadline-fired", fmt.Sprintf("%s: Set%sDeadline(%s) made a deadline timer run at once", what, which, dl.Format(time.RFC3339)), "")
+					return
+				}
+				go func() { time.Sleep(5 * time.Millisecond); peer.Send(wire.Data(wire.OpBinary, true, []byte("late!"))) }()
+				n, err := io.ReadFull(nc, buf[:5])
+				if err != nil || string(buf[:n]) != "late!" {
+					r.Violate("C18/read-failed-before-deadline", fmt.Sprintf("%s: with a %s deadline at %s a Read returned %q, %v", what, which, dl.Format(time.RFC3339), buf[:n], err), "")
+					return
+				}
+				if _, err := nc.Write([]byte("w")); err != nil {
+					r.Violate("C18/write-failed-before-deadline", fmt.Sprintf("%s: with a %s deadline at %s a Write failed: %v", what, which, dl.Format(time.RFC3339), err), "")
+					return
+				}
+				r.Count("far_future_deadlines_set", 1)
+			}
+		}
+		nc.SetDeadline(time.Time{})
+		roundTrip("far-future")
 	case "read-future-deadline-not-reached":
 		nc.SetReadDeadline(time.Now().Add(20 * time.Second))
 		go func() { time.Sleep(20 * time.Millisecond); peer.Send(wire.Data(wire.OpBinary, true, []byte("late!"))) }()
